@@ -1,7 +1,7 @@
 \* (thorough) 1..2 files x 0..2 items; items: long/short header, empty record, entry record, 4 CPU/segment/granularity
 \* combinations (one with cpu >= $80); 3 filter lists
 CONSTANTS MaxFiles = 2 MaxItems = 2 Starts = {300} ByteLens = {0, 2} EntryAddrs = {4660}
-  CpuSegGran <- CSG_Small Forms <- Forms_Both Filters <- F_Small Creators <- Cr_One
+  CpuSegGran <- CSG_Small Forms <- Forms_Both Filters <- F_Small Creators <- Cr_One Quiets <- Q_No Dev <- D_None
 SPECIFICATION Spec
 INVARIANTS Conforms StepRunAgrees PrefixOK RoundTrip HeaderRule
 PROPERTY Monotone
